@@ -151,6 +151,19 @@ def evalHuge (st : DState) (d : Nat × Bool × List Nat) (t : List String) : Eva
   | ["succ", x] => both (rOptPair (Huge.succB len fill flips (num x))) "bv.huge.succ"
   | _ => { st := st, model := "driver:unknown-huge-op" }
 
+/-- (length, sorted distinct set positions) of any bit source known to the driver — never materialises the bits, so
+it also serves sources whose length is near `usize::MAX` -/
+def refSet (st : DState) (name : String) : Option (Nat × List Nat) :=
+  match st.bvs[name]? with
+  | some o => some (o.s.length, onesPos o.s)
+  | none =>
+    match st.sps[name]? with
+    | some o => some (o.n, o.vals.eraseDups)
+    | none =>
+      match st.rls[name]? with
+      | some o => some (o.len, o.runs.flatMap fun r => (List.range r.2).map (· + r.1))
+      | none => none
+
 def evalBv (st : DState) (name : String) (t : List String) : Eval :=
   let m := st.mode
   let put (o : BvObj) (regime : String := "") : Eval :=
